@@ -169,6 +169,8 @@ def typed_value(draw, allow_table=True):
     if k == "array":
         return t, draw(array_value(t)), unit
     lit = draw(scalar_literal(t))
+    if t == "str" and draw(st.integers(0, 11)) == 0:
+        lit = {"text": draw(st.sampled_from(['""', "''"])), "py": ""}      # the empty string is a value
     return t, {"form": "scalar", "text": lit["text"], "py": lit["py"]}, unit
 
 
